@@ -196,6 +196,10 @@ impl Node {
     /// If the node [is enabled](Self::is_enabled) and does not have a sharder,
     /// this means it's not a ScyllaDB node.
     pub fn sharder(&self) -> Option<Sharder> {
+        #[cfg(scylla_verif)]
+        if let Some(sharder) = verif_hooks_flags::get_sharder(self.host_id) {
+            return Some(sharder);
+        }
         self.pool.as_ref()?.sharder()
     }
 
@@ -711,6 +715,37 @@ pub mod verif_hooks_flags {
         let mut guard = FLAGS.write().unwrap();
         *guard = None;
         ACTIVE.store(false, Ordering::SeqCst);
+    }
+
+    static SHARDERS_ACTIVE: AtomicBool = AtomicBool::new(false);
+    static SHARDERS: RwLock<Option<HashMap<Uuid, (u16, u8)>>> = RwLock::new(None);
+
+    /// From now on `Node::sharder()` of the node with this host id is
+    /// `Some(Sharder::new(nr_shards, msb_ignore))` (a pool-less node has none otherwise).
+    pub fn set_node_sharder(host_id: Uuid, nr_shards: std::num::NonZeroU16, msb_ignore: u8) {
+        let mut guard = SHARDERS.write().unwrap();
+        guard
+            .get_or_insert_with(HashMap::new)
+            .insert(host_id, (nr_shards.get(), msb_ignore));
+        SHARDERS_ACTIVE.store(true, Ordering::SeqCst);
+    }
+
+    /// Removes every sharder override.
+    pub fn clear_node_sharders() {
+        let mut guard = SHARDERS.write().unwrap();
+        *guard = None;
+        SHARDERS_ACTIVE.store(false, Ordering::SeqCst);
+    }
+
+    pub(super) fn get_sharder(host_id: Uuid) -> Option<crate::routing::Sharder> {
+        if !SHARDERS_ACTIVE.load(Ordering::Relaxed) {
+            return None;
+        }
+        let (nr, msb) = SHARDERS.read().unwrap().as_ref()?.get(&host_id).copied()?;
+        Some(crate::routing::Sharder::new(
+            crate::routing::ShardCount::new(nr)?,
+            msb,
+        ))
     }
 
     pub(super) fn get(host_id: Uuid) -> Option<(bool, bool)> {
